@@ -11,6 +11,7 @@
 (*          be exactly the occurrence positions (each once) of the matched    *)
 (*          suffix.  The same object answers all searches of a run; `it` = kind*)
 (*          of iterator the pattern was handed over with (no influence).      *)
+(*   clone_from {} -> ok   the index was clone_from()-ed into one built for another text *)
 (*   serde  {}  -> ok      owned index + sampled array round-tripped through  *)
 (*          serde; the searches after it are judged like the ones before      *)
 (* run.cfg = [kind = "unary", n, a, sent, k, s]: closed-form family A^(n-1)$   *)
@@ -31,13 +32,16 @@ vars == <<run, idx, ok>>
 Explains(cfg, e) ==
     LET c == e.c  r == e.r  t == cfg.text IN
     /\ r.st = "ok"
-    /\ CASE c.op = "serde" -> TRUE      \* the index (and sampled array) went through Serialize/Deserialize
+    /\ CASE c.op \in {"serde", "clone_from"} -> TRUE      \* the index (and sampled array) went through Serialize/Deserialize
          [] c.op = "new" -> SentinelOK(t) /\ r.n = Len(t)       \* (r.sa is only used by MachineAgrees)
          [] c.op = "search" ->
               LET p == c.a.p IN
-              /\ Len(p) >= 1 /\ \A i \in 1..Len(p) : p[i] # Sentinel(t) /\ p[i] \in Range(cfg.alpha)
-              /\ r.kind \in {Absent, Partial, Complete}
-              /\ BackwardSearchOK(p, t, r)
+              \* the empty pattern is outside the property (non-empty patterns): only "answers" is demanded;
+              \* what the code answers today (Absent) is machine-layer conformance, see Exact
+              IF Len(p) = 0 THEN TRUE
+              ELSE /\ \A i \in 1..Len(p) : p[i] # Sentinel(t) /\ p[i] \in Range(cfg.alpha)
+                   /\ r.kind \in {Absent, Partial, Complete}
+                   /\ BackwardSearchOK(p, t, r)
          [] c.op = "new_unary" -> cfg.kind = "unary" /\ cfg.n >= 2 /\ cfg.a > cfg.sent /\ r.n = cfg.n
          [] c.op = "search_unary" ->
               LET n == cfg.n  m == c.a.m  want == UnaryBS(n, m) IN
@@ -46,6 +50,14 @@ Explains(cfg, e) ==
               /\ Len(r.vals) = Len(r.rows)
               /\ \A j \in 1..Len(r.rows) : r.rows[j] \in r.lower..(r.upper - 1) /\ r.vals[j] = n - 1 - r.rows[j]
          [] OTHER -> FALSE
+
+\* machine-layer conformance (DRIFT, never a REJECT): the unchanged code answers the empty pattern with
+\* Absent (no symbol matched), and lists the positions of an interval in suffix-array row order
+Exact(cfg, e) ==
+    IF e.c.op = "search" /\ Len(e.c.a.p) = 0 THEN e.r.kind = Absent
+    ELSE IF e.c.op = "search" /\ e.r.kind # Absent /\ Rec[run].ev[1].r.st = "ok" /\ Len(cfg.text) <= 200
+    THEN \A x \in 1..Len(e.r.pos) : e.r.pos[x] = Rec[run].ev[1].r.sa[e.r.lower + x]
+    ELSE TRUE
 
 \* Cross-check of the specification itself at the real constants (T = 64, the run's Occ rate): the
 \* backward-search machine over the Occ machine, run on the suffix array the code built, agrees with
@@ -70,7 +82,9 @@ Next ==
     /\ ok /\ idx < Len(Rec[run].ev)
     /\ LET good == Explains(Rec[run].cfg, Rec[run].ev[idx + 1])
        IN  /\ ok' = good
-           /\ IF good THEN TRUE ELSE PrintT(<<"REJECT", run, idx + 1>>)
+           /\ IF good
+              THEN (IF Exact(Rec[run].cfg, Rec[run].ev[idx + 1]) THEN TRUE ELSE PrintT(<<"DRIFT", run, idx + 1>>))
+              ELSE PrintT(<<"REJECT", run, idx + 1>>)
     /\ idx' = idx + 1
     /\ UNCHANGED run
 Spec == Init /\ [][Next]_vars
